@@ -529,8 +529,11 @@ def _flatnonzero(a):
     return np.ndarray.nonzero(plain(a).ravel())[0]
 
 
-def _matrix_rank_gf2_unsupported(*a, **k):
-    raise Unsupported("np.linalg.matrix_rank on symbolic matrix")
+def _matrix_rank_gf2_unsupported(m, *a, **k):
+    # concretise by forking on every symbolic cell (sound: just more paths), then the REAL numpy routine runs
+    from .stubs import concretize_matrix
+
+    return np.linalg.matrix_rank(concretize_matrix(m), *a, **k)
 
 
 def _copy(a, order="K", subok=False):
